@@ -109,13 +109,18 @@ def check(prop: str, tier: str, seed: int, cap: int = 0) -> int:
             if any(m["module"] == inst["module"] and m["cfg"] == inst["cfg"] for m in mc_stats):
                 continue
             st = tlc.model_check(inst["module"], inst["cfg"], workers=inst.get("workers", 16),
-                                 timeout=inst.get("timeout", 3600))
+                                 timeout=inst.get("timeout", 3600), coverage=bool(inst.get("coverage")))
             if not st["ok"]:
                 print("MACHINERY-FAILURE: design spec %s/%s does not satisfy its properties:\n%s"
                       % (inst["module"], inst["cfg"], st["output_tail"]))
                 return 2
+            if inst.get("coverage") == "strict" and st["never_enabled"]:
+                print("MACHINERY-FAILURE: design spec %s/%s is vacuous: actions never enabled: %s"
+                      % (inst["module"], inst["cfg"], st["never_enabled"]))
+                return 2
             mc_stats.append({"module": inst["module"], "cfg": inst["cfg"], "generated": st["generated"],
-                             "distinct": st["distinct"], "wall_s": st["wall_s"]})
+                             "distinct": st["distinct"], "wall_s": st["wall_s"],
+                             "actions_never_enabled": st["never_enabled"] if inst.get("coverage") else "not measured"})
         # 1'. the design with a deviation switched on must exhibit the recorded finding
         for dv in part.get("deviations", []):
             st = tlc.model_check(dv["module"], dv["cfg"], workers=16, timeout=600,
